@@ -7,6 +7,9 @@ checks = {
  "C14": ("model_checking", "explicit-state BFS over hset/hdel histories on the real hash, ordered-map reference model + twin hash",
          "every history of hset/hdel over a 7-key universe (incl. forced bucket collisions) to depth 4 (thorough 5) is executed on the real SexpHash; after each step every observer is compared with an ordered-map model; states are deduplicated by the hash's own three redundant structures",
          "trusts the Go reference model (slice of pairs) and the script-level observers; bounded depth and key universe", "§3 C14"),
+ "C07": ("exploration", "exhaustive enumeration of all ordered pairs of a boundary grid on the real interpreter against a math/big oracle",
+         "every ordered pair of a boundary grid over int64/uint64/char/float64 (quick 169 values, thorough 1030: +-2^k, 2^k+-1, float neighbours, NaN, Inf, +-0, subnormals) under all 6 comparison operators, hash lookup and + - * / mod is evaluated on the real interpreter and compared with an exact oracle",
+         "trusts the math/big / Go fixed-width oracle; values outside the structured grid are not explored; pairs the property leaves unspecified are only checked for no-panic", "§3 C07"),
 }
 all_ids = ["C%02d" % i for i in range(1, 21)]
 pending = {i: "check not built yet in this tree (see DESIGN.md §7 build order); will be claimed when its machinery lands" for i in all_ids if i not in checks}
